@@ -1266,7 +1266,130 @@ func regexConstructorInvariant(p *Prog) string {
 	if !hasCheck {
 		return "constructor does not compare the compiled pattern's NumSubexp() with its own group count"
 	}
-	return ""
+	// the table may be dropped (groups = nil ⇒ positional pairing) only if NO expression has groups of its own:
+	// the deciding flag is set — and never cleared again — where some index deviates from position+1 or some
+	// expression's NumSubexp() is positive
+	why := ""
+	allInstrs(fn, func(in ssa.Instruction) {
+		r, ok := in.(*ssa.Return)
+		if !ok || len(r.Results) < 3 || why != "" {
+			return
+		}
+		var gi int = -1
+		for i, res := range r.Results {
+			if s, isS := res.Type().Underlying().(*types.Slice); isS && isIntT(s.Elem()) {
+				gi = i
+			}
+		}
+		if gi < 0 {
+			return
+		}
+		ph, isPhi := strip(r.Results[gi]).(*ssa.Phi)
+		if !isPhi {
+			if vNil(r.Results[gi]) {
+				return // an error return
+			}
+			return // the table is always kept: fine
+		}
+		nilEdge := -1
+		for i, e := range ph.Edges {
+			if vNil(e) {
+				nilEdge = i
+			}
+		}
+		if nilEdge < 0 {
+			return
+		}
+		// the condition that selects the nil edge
+		var cond ssa.Value
+		var takenWhen bool
+		pred := ph.Block().Preds[nilEdge]
+		for b := pred; b != nil; b = b.Idom() {
+			if iff, isIf := b.Instrs[len(b.Instrs)-1].(*ssa.If); isIf && len(b.Succs) == 2 {
+				t0, t1 := b.Succs[0], b.Succs[1]
+				reach := func(from *ssa.BasicBlock) bool { return from == pred || from.Dominates(pred) }
+				if reach(t0) != reach(t1) {
+					cond, takenWhen = iff.Cond, reach(t0)
+					break
+				}
+			}
+			if b == fn.Blocks[0] {
+				break
+			}
+		}
+		if cond == nil {
+			why = "the condition under which the group table is dropped was not found"
+			return
+		}
+		inner, pos := unNot(cond)
+		dropWhenFlagFalse := (pos && !takenWhen) || (!pos && takenWhen)
+		flag, isFlag := inner.(*ssa.Phi)
+		if !isFlag || !dropWhenFlagFalse {
+			// e.g. nextGroup-1 == len(binds): the same fact as a count
+			if b, isB := inner.(*ssa.BinOp); isB && (b.Op == token.EQL || b.Op == token.NEQ) {
+				d := linOf(b.X).plus(linOf(b.Y), -1)
+				hasLen := false
+				for v := range d.t {
+					if vCall("builtin.len", vAny)(v) {
+						hasLen = true
+					}
+				}
+				if hasLen {
+					return
+				}
+			}
+			why = "the group table is dropped on a condition that is not an accumulated `some expression has groups of its own` flag"
+			return
+		}
+		// monotone: every value the flag can take is a constant, or the short-circuit form φ(true, cond)
+		deviates := func(v ssa.Value) bool {
+			b, isB := strip(v).(*ssa.BinOp)
+			if !isB {
+				return false
+			}
+			for _, side := range []ssa.Value{b.X, b.Y} {
+				if vCall("(*regexp.Regexp).NumSubexp")(side) {
+					return true
+				}
+			}
+			return b.Op == token.NEQ || b.Op == token.GTR || b.Op == token.LSS
+		}
+		seen := map[*ssa.Phi]bool{}
+		var mono func(p2 *ssa.Phi) bool
+		mono = func(p2 *ssa.Phi) bool {
+			if seen[p2] {
+				return true
+			}
+			seen[p2] = true
+			for i, e := range p2.Edges {
+				e = strip(e)
+				switch x := e.(type) {
+				case *ssa.Const:
+				case *ssa.Phi:
+					if !mono(x) {
+						return false
+					}
+				default:
+					// flag = flag || cond: the other edge is the constant true, taken where the flag already held
+					okOr := false
+					if len(p2.Edges) == 2 && deviates(e) {
+						o := strip(p2.Edges[1-i])
+						if vConstBool(true)(o) {
+							okOr = true
+						}
+					}
+					if !okOr {
+						return false
+					}
+				}
+			}
+			return true
+		}
+		if !mono(flag) {
+			why = "the flag that decides whether the group table is dropped is overwritten per expression instead of accumulated: an expression with groups of its own followed by one without drops the table, and later binds take the wrong sub-match"
+		}
+	})
+	return why
 }
 
 func checkRoutingAssertions(c *Check) {
